@@ -107,6 +107,10 @@ def r1(ctx: Ctx, fn: Func, rule: str, deliver_direct: bool, deliver_funcs: set[s
                 s = s | {"delivered"}
             elif e == "err":
                 s = s | {"err"}
+        if n.kind == "cond" and n.ast is not None and ("consumed" in s or "delivered" in s) and any(k in norm(n.ast) for k in ("CLOSED", "_transport", "is_connected", "connection_state")):
+            s = s | {"closed-tested"}
+        if isinstance(n.ast, ast.Return) and n.ast in in_loop and label == "return":
+            s = s | {"@return-in-loop"}
         if label in ("back", "continue"):
             s = s | {"@back"}
         return s
@@ -138,11 +142,34 @@ def r1(ctx: Ctx, fn: Func, rule: str, deliver_direct: bool, deliver_funcs: set[s
             problems.append("returns with a frame consumed but not delivered (lost)" if "consumed" in s else "returns with a frame delivered but not consumed (delivered again on the next chunk)")
         if "err" in s and ("consumed" in s or "delivered" in s):
             problems.append("error path consumes or delivers")
+        if "@return-in-loop" in s and ("consumed" in s or "delivered" in s) and "closed-tested" not in s and "err" not in s:
+            problems.append("returns right after consuming a frame instead of looping: complete frames buffered behind it are stranded until the next chunk arrives")
     ctx.ob(rule, fn, "every loop iteration is reset-read-return or reset-read-consume-deliver", not problems, "; ".join(sorted(set(problems)))[:300])
     ctx.analysed.setdefault("loop_iteration_states", {})[fn.key] = n_paths
     # buffering happens once, before the loop
     adds = [n for n in g.reachable() if any("_add_to_buffer" in {f.name for f in resolver(ctx).callees(fn, c).funcs} for c in node_calls(n))]
     ctx.ob(rule, fn, "received chunk appended exactly once, before the loop", len(adds) == 1 and adds[0].ast not in in_loop and isinstance(adds[0].ast, ast.Expr) and [norm(a) for a in adds[0].ast.value.args] == [p for p in fn.param_names() if p != "self"][:1], f"{[n.text(40) for n in adds]}")
+    # nothing may leave the function between the append and the loop on the strength of helper state:
+    # complete frames could already be buffered (an empty-chunk shortcut that tests only the argument is fine)
+    early = []
+    for n in g.reachable():
+        if isinstance(n.ast, ast.Return) and n.ast not in in_loop and not n.copy_of:
+            # conditions on some path from the entry to this return, before the loop head
+            seen_b = {n}
+            todo_b = [n]
+            conds_b = []
+            while todo_b:
+                x = todo_b.pop()
+                for l, pnode in x.pred:
+                    if pnode in seen_b or pnode is head_n or (pnode.ast is not None and pnode.ast in in_loop):
+                        continue
+                    seen_b.add(pnode)
+                    todo_b.append(pnode)
+                    if pnode.kind == "cond":
+                        conds_b.append(pnode)
+            if any("self." in norm(c.ast) for c in conds_b) or not conds_b:
+                early.append(f"L{n.lineno} guarded by {[norm(c.ast)[:50] for c in conds_b]}")
+    ctx.ob(rule, fn, "no return before the parse loop that depends on helper state", not early, f"{early[:2]}: a chunk that completes buffered frames can be appended and left unparsed (stale threshold / flag)")
     # loop runs while bytes are buffered
     ctx.ob(rule, fn, "loop continues while unconsumed bytes remain", norm(loops[0].test) in ("self._buffer_len", "self._buffer_len > 0", "self._buffer_len != 0"), f"loop test {norm(loops[0].test)}")
 
